@@ -308,3 +308,39 @@ Section SLazy.
   Definition slazy : sink A :=
     mksink (lz_op (sready nx)) lz_send (lz_op (sflush nx)) (lz_op (sclose nx)).
 End SLazy.
+
+(* ------------------------------------------------------------------ unzip.rs AFTER the proposed
+   close-once fix (fixes/C14_unzip_close_once.diff): poll_close skips a sink whose poll_close
+   already completed; poll_ready / poll_flush / start_send unchanged. *)
+
+Section SUnzipOnce.
+  Context {A B : Type} (p0 : sink A) (p1 : sink B).
+  Definition suo_st : Type := ((bool * bool) * (SSt p0 * SSt p1))%type.
+
+  (* if !closed_0 { if let Ready(()) = sink_0.poll_close(cx)? { closed_0 = true } }  (same for 1) *)
+  Definition sclose_once (s : suo_st) : res * suo_st :=
+    let (a, s0) := if fst (fst s) then (RDone, fst (snd s)) else sclose p0 (fst (snd s)) in
+    match a with
+    | RErr => (RErr, (fst s, (s0, snd (snd s))))
+    | _ =>
+      let c0 := match a with RDone => true | _ => false end in
+      let (b, s1) := if snd (fst s) then (RDone, snd (snd s)) else sclose p1 (snd (snd s)) in
+      match b with
+      | RErr => (RErr, ((c0, snd (fst s)), (s0, s1)))
+      | _ =>
+        let c1 := match b with RDone => true | _ => false end in
+        (if c0 && c1 then RDone else RPend, ((c0, c1), (s0, s1)))
+      end
+    end.
+
+  Definition lift_op (op : SSt p0 * SSt p1 -> res * (SSt p0 * SSt p1)) (s : suo_st) : res * suo_st :=
+    let (r, s') := op (snd s) in (r, (fst s, s')).
+
+  Definition sunzip_once : sink (A * B) :=
+    mksink (SSt := suo_st)
+           (lift_op (@sboth _ _ p0 p1 (sready p0) (sready p1)))
+           (fun ab s => match ssend (sunzip p0 p1) ab (snd s) with
+                        | Some (ok, s') => Some (ok, (fst s, s')) | None => None end)
+           (lift_op (@sboth _ _ p0 p1 (sflush p0) (sflush p1)))
+           sclose_once.
+End SUnzipOnce.
